@@ -48,6 +48,8 @@ structure Mon where
   expectPause : Bool := false       -- an effective Pause() call has been made; its pause event is due
   flushHeld : Bool := false         -- a Flush() call was made while the loop could not serve it (paused, or not started yet)
   expectCycleAt : Option Nat := none  -- … so a cycle is owed at this instant (resume / start): with work buffered and nothing to hold it back a batch must appear
+  maxcap : Option Nat := none       -- the fake limiter's MaxCapacity() after the last change (none = as configured)
+  maxcapAt : Nat := 0
   stopAsked : Bool := false   -- an audit reset happened while an Enqueue was inside the library (finding F9)
 
 def Mon.add (m : Mon) (p r : String) : Mon :=
@@ -94,6 +96,12 @@ def monitorHist (sc : HScn) (entries : List String) : List (String × String) :=
         | none => false
       if waited == true then m := m.add "C15" "error-mode-enqueue-waited"
       m := { m with calls := m.calls.map fun c => if c.k == n2 then { c with res := some a3 } else c }
+      -- C14: the cost limit is the limiter's MaxCapacity() at the time of the call
+      let tooDear : Option Bool := match m.calls.find? (·.k == n2) with
+        | some cl => if cl.t > m.maxcapAt || m.maxcap.isNone then some (sc.c.limited && decide (cl.cost > m.maxcap.getD sc.maxcap)) else none
+        | none => none
+      if a3 == "TooExpensive" && tooDear == some false then m := m.add "C14" "refused-as-too-expensive-although-within-MaxCapacity"
+      if a3 == "ok" && tooDear == some true then m := m.add "C14" "accepted-although-dearer-than-MaxCapacity"
       if a3 == "TooManyAttempts" then
         match m.calls.find? (·.k == n2) with
         | some cl =>
@@ -113,6 +121,7 @@ def monitorHist (sc : HScn) (entries : List String) : List (String × String) :=
         -- effective iff the Batcher is running and not paused (and nobody is stopping it concurrently)
         let eff := m.started.isSome && !m.paused && m.shutdownAt.isNone && !m.stopAsked && !m.expectPause
         m := { m with pauseCalls := m.pauseCalls + 1, expectPause := m.expectPause || eff }
+      else if a2 == "m" then m := { m with maxcap := some n3, maxcapAt := t }
       else if a2 == "F" then
         if (m.paused || m.started.isNone) && m.shutdownAt.isNone then m := { m with flushHeld := true }
       else if a2 == "X" then m := { m with stopAsked := true }
